@@ -228,6 +228,32 @@ fn run_family(plan: &Plan, lib: &dyn Lib, rec: &mut Rec) {
             }
         }
     }
+    // trait-level verifier with a caller-supplied generator H = t*pk and blinder b = -t*m: c2 = b*pk + m*H is the
+    // identity and the sigma proof is otherwise perfectly valid
+    {
+        let pkp = Pt::from_bytes(&a.pk).unwrap();
+        let t = refimpl::keygen(&x.bytes(11));
+        let m = refimpl::keygen(&x.bytes(12));
+        let hgen = pkp.mul(&t);
+        let blind = -(t * m);
+        let r = refimpl::keygen(&x.bytes(13));
+        let pr = refimpl::elgamal_prove(&b, &pkp, &hgen, &m, &blind, &r);
+        if pr.c2.is_identity() {
+            let args: Vec<Vec<u8>> = vec![a.pk.clone(), hgen.to_bytes(), pr.c1.to_bytes(), pr.c2.to_bytes(), refimpl::scalar_to_be(&pr.message_proof), refimpl::scalar_to_be(&pr.blinder_proof), refimpl::scalar_to_be(&pr.challenge)];
+            let ar: Vec<&[u8]> = args.iter().map(|v| v.as_slice()).collect();
+            nv!(rec, rec_call(rec, lib, g, Op::EgVerifyRaw, &ar), "BlsElGamal::verify_proof c2=O with consistent proof (generator t*pk, blinder -t*m)", g, scheme);
+            // sanity of the construction: the same proof machinery with an ordinary blinder verifies
+            let pr2 = refimpl::elgamal_prove(&b, &pkp, &hgen, &m, &r, &t);
+            let args: Vec<Vec<u8>> = vec![a.pk.clone(), hgen.to_bytes(), pr2.c1.to_bytes(), pr2.c2.to_bytes(), refimpl::scalar_to_be(&pr2.message_proof), refimpl::scalar_to_be(&pr2.blinder_proof), refimpl::scalar_to_be(&pr2.challenge)];
+            let ar: Vec<&[u8]> = args.iter().map(|v| v.as_slice()).collect();
+            let ok = rec.call(lib, g, Op::EgVerifyRaw, &ar);
+            if !ok.is_ok() {
+                rec.note(format!("harness note: reference proof with a custom generator does not verify at trait level: {:?}", ok));
+            } else {
+                rec.probe("custom-generator-proof-construction-verified");
+            }
+        }
+    }
     // --- the zero scalar can neither be imported from bytes nor used to sign / prove / partially sign
     for s in 0u8..3 {
         nv!(rec, rec_call(rec, lib, g, Op::Sign, &[&zero, &[s], &msg]), "SecretKey::sign sk=0", g, s);
